@@ -135,6 +135,12 @@ def execute(case):
     return sim.run_history(case, check_event, pid=ID)
 
 
+def _cluster():
+    from .c05 import _cluster_cases
+
+    return _cluster_cases()
+
+
 def parts(tier):
     q = tier == 'quick'
     return [
@@ -143,6 +149,8 @@ def parts(tier):
             strategy=sim.histories(weights={'rereq': 4, 'leave': 1}),
             cases=1600 if q else 50000, batch=200,
         ),
+        core.Part('cluster', execute, strategy=_cluster(),
+                  cases=120 if q else 3000, batch=40),
         core.Part(
             'timers', execute,
             strategy=sim.histories(weights={'rereq': 4, 'leave': 1,
